@@ -530,6 +530,8 @@ Definition conn_lost (c : cfg) : M :=
 Inductive event :=
 | EHandshake                                   (* the peer's valid opening handshake arrives *)
 | EBadHandshake                                (* the peer's opening handshake is invalid: failHandshake *)
+| EConnectRaises (txt : list N)                (* the peer's valid opening handshake arrives and the application's onConnect
+                                                  raises (any exception, ConnectionDeny included); txt = str of the failure *)
 | EProxyOk                                     (* client with factory.proxy: the proxy answers the CONNECT with 2xx *)
 | EProxyBad                                    (* ... with anything else: failProxyConnect *)
 | ESendClose (code : option N) (reason : option (list N))    (* API sendClose(code, reason); reason = UTF-8 octets of the str *)
@@ -573,6 +575,15 @@ Definition handshake_bad (c : cfg) : M :=
   upd (set_ncr RHandshake) ;;
   (if is_server c then say WHttp ;; drop_connection false else drop_connection true).
 
+(* onConnect raises.  Server (processHandshake: forward_error): failHandshake, an HTTP error response and the drop.
+   Client (processHandshake: on_connect_failed): the connection is already OPEN (state set, opening-handshake timer
+   cancelled, auto ping armed; onOpen is never called) and is failed with the close code found at that call site *)
+Definition handshake_connect_raises (c : cfg) (txt : list N) : M :=
+  if is_server c then handshake_bad c
+  else upd (set_st OPEN) ;; cancel_slot TOpenHS ;;
+       whenM (0 <? autoPingInterval c) (arm_batched TAutoPing (autoPingInterval c)) ;;
+       fail_connection c code_onconnect_failed txt.
+
 (* protocol.py: onFrameEnd of a data frame: "if self.autoPingTimeoutCall and self.autoPingRestartOnAnyTraffic" for EVERY
    data frame, final or not; a final one ends the message: onMessageEnd delivers it unless failedByMe *)
 Definition data_frame_end (c : cfg) (fin : bool) : M :=
@@ -615,6 +626,7 @@ Definition handle (c : cfg) (e : event) : M :=
   match e with
   | EHandshake => ifS connecting (handshake_ok c) ret
   | EBadHandshake => ifS connecting (handshake_bad c) ret
+  | EConnectRaises txt => ifS connecting (handshake_connect_raises c txt) ret
   (* processProxyConnect: state = STATE_CONNECTING; startHandshake() writes the opening-handshake request.  The
      opening-handshake timer armed by _connectionMade keeps running *)
   | EProxyOk => ifS proxy_connecting (upd (set_proxyPending false) ;; say WHttp) ret
